@@ -531,6 +531,8 @@ pub fn all() -> Vec<(&'static str, &'static str, fn() -> R)> {
         ("C13", "failed_set_len", c13_failed_set_len),
         ("C14", "lock_depth", c14_lock_depth),
         ("C15", "small_cycle", c15_small_cycle),
+        ("C02", "mini_stream_small", c02_mini_stream_small),
+        ("C02", "mini_stream_limit", c02_mini_stream_limit),
     ]
 }
 
@@ -899,6 +901,37 @@ pub fn c03_mini_stream_drift() -> R {
             }
             k += 1;
             c.create_stream(format!("/s{}", k)).unwrap().write_all(&[3u8; 64]).unwrap();
+        }
+    }
+    Ok(())
+}
+
+
+/// Synthesised files whose mini stream is completely used (every mini sector owned, no free
+/// MiniFAT entry): one more small stream must leave bytes that reopen to what the live object
+/// reported.  Small sizes: the synthesis and the oracle themselves.
+pub fn c02_mini_stream_small() -> R {
+    use crate::rootfits::{run, Fill};
+    for (major, n, fill) in [(3u16, 15_999u64, Fill::Orphan), (3, 15_999, Fill::Streams), (4, 31_999, Fill::Streams)] {
+        match std::panic::catch_unwind(|| run(major, n, fill)) {
+            Ok(Ok(_)) => {}
+            Ok(Err(e)) => return Err(e),
+            Err(_) => return Err(format!("panic: version {} file with {} mini sectors ({:?})", major, n, fill)),
+        }
+    }
+    Ok(())
+}
+
+/// The same at the limit of a version 3 root entry: a mini stream of 2^32 - 64 bytes (one
+/// million small streams, synthesised on a sparse backend) plus one more mini sector; one mini
+/// sector below the limit as the control.  Slow (thorough tier only).
+pub fn c02_mini_stream_limit() -> R {
+    use crate::rootfits::{run, Fill, V3_MAX_MINI};
+    for n in [V3_MAX_MINI - 1, V3_MAX_MINI] {
+        match std::panic::catch_unwind(|| run(3, n, Fill::Streams)) {
+            Ok(Ok(_)) => {}
+            Ok(Err(e)) => return Err(e),
+            Err(_) => return Err(format!("panic: version 3 file with {} mini sectors", n)),
         }
     }
     Ok(())
